@@ -27,6 +27,13 @@ def main():
             r = subprocess.run([os.path.join(HERE, "check"), m["pid"], "--tier", "quick"], capture_output=True, text=True, env=env)
             viol = [l for l in r.stdout.splitlines() if l.startswith("VIOLATION")]
             ok = r.returncode == 1 and viol
+            if m.get("equivalent"):
+                # a change under which the property still holds: the check must stay silent (exit 0, no VIOLATION)
+                ok = r.returncode == 0 and not viol
+                print(("SILENT-OK " if ok else "FALSE-ALARM ") + f"{m['pid']} {m['name']} exit={r.returncode} " + (viol[0] if viol else ""))
+                bad += 0 if ok else 1
+                results.append({"pid": m["pid"], "name": m["name"], "file": m["file"], "equivalent": True, "silent": bool(ok), "exit": r.returncode})
+                continue
             print(("DETECTED " if ok else "MISSED   ") + f"{m['pid']} {m['name']} exit={r.returncode} " + (viol[0].split('replay=')[1].split('/')[-1] if viol else r.stdout.strip().splitlines()[-1][:200] if r.stdout.strip() else r.stderr[-300:]))
             bad += 0 if ok else 1
             results.append({"pid": m["pid"], "name": m["name"], "file": m["file"], "detected": bool(ok), "exit": r.returncode,
@@ -41,7 +48,8 @@ def main():
         for r in results:
             old[(r["pid"], r["name"])] = r
         allr = sorted(old.values(), key=lambda r: (r["pid"], r["name"]))
-        json.dump({"note": "last recorded outcome of tools/selftest.py per hand-written mutant (quick tier)", "detected": sum(r["detected"] for r in allr), "total": len(allr),
+        json.dump({"note": "last recorded outcome of tools/selftest.py per hand-written mutant (quick tier)", "detected": sum(r.get("detected", False) for r in allr), "total": sum(1 for r in allr if not r.get("equivalent")),
+                   "equivalent_silent": sum(r.get("silent", False) for r in allr), "equivalent_total": sum(1 for r in allr if r.get("equivalent")),
                    "results": allr}, open(path, "w"), indent=1)
     return 1 if bad else 0
 
